@@ -77,17 +77,23 @@ class Vector:
     def rebase(self, coordinate_system: CoordinateSystem) -> Vector:
         vector_: Vector = self
         if self.coordinate_system.coord_system_type != coordinate_system.coord_system_type:
+            if self.coordinate_system.coord_system_type == CoordinateSystem.System.CARTESIAN:
+                # curvilinear coordinates are taken in the frame of the new system, so bring the
+                # vector into that frame before changing the kind of coordinates
+                vector_ = self.rebase(
+                    CoordinateSystem(CoordinateSystem.System.CARTESIAN,
+                    coordinate_system.coord_system))
             new_scalars = list(
-                self.coordinate_system.transformation_to_system(
+                vector_.coordinate_system.transformation_to_system(
                 coordinate_system.coord_system_type))
             # now take each component of vector and assign them to base_scalars, eg x, y, z
             # replace each component of new_scalars with assigned x, y, z, eg r -> x, theta -> y
             # build new vector from these components
-            for i, scalar in enumerate(self.coordinate_system.coord_system.base_scalars()):
-                new_component = 0 if i >= len(self.components) else self.components[i]
+            for i, scalar in enumerate(vector_.coordinate_system.coord_system.base_scalars()):
+                new_component = 0 if i >= len(vector_.components) else vector_.components[i]
                 for j, old_scalar in enumerate(new_scalars):
                     new_scalars[j] = old_scalar.subs(scalar, new_component)
-            vector_ = Vector(new_scalars, self.coordinate_system)
+            vector_ = Vector(new_scalars, vector_.coordinate_system)
         # We do not want to maintain own vector transformation functions, so
         # we convert our vector to SymPy format, transform it and convert back to Vector.
         sympy_vector = vector_.to_sympy_vector()
